@@ -122,6 +122,8 @@ where
     New: Index<usize> + ?Sized,
     New::Output: PartialEq<Old::Output>,
 {
+    #[cfg(similar_verif)]
+    crate::verif_hooks::cleanup_step("begin", 0, ops);
     // First attempt to compact all Deletions
     let mut pointer = 0;
     while let Some(&op) = ops.get(pointer) {
@@ -132,6 +134,8 @@ where
         pointer += 1;
     }
 
+    #[cfg(similar_verif)]
+    crate::verif_hooks::cleanup_step("pass2", pointer, ops);
     // Then attempt to compact all Insertions
     let mut pointer = 0;
     while let Some(&op) = ops.get(pointer) {
@@ -141,6 +145,8 @@ where
         }
         pointer += 1;
     }
+    #[cfg(similar_verif)]
+    crate::verif_hooks::cleanup_step("end", pointer, ops);
 }
 
 fn shift_diff_ops_up<Old, New>(
@@ -181,9 +187,13 @@ where
                         ops.remove(pointer - 1);
                         pointer -= 1;
                     }
+                    #[cfg(similar_verif)]
+                    crate::verif_hooks::cleanup_step("up_slide", pointer, ops);
                 } else if ops[pointer - 1].is_empty() {
                     ops.remove(pointer - 1);
                     pointer -= 1;
+                    #[cfg(similar_verif)]
+                    crate::verif_hooks::cleanup_step("up_drop", pointer, ops);
                 } else {
                     // We can't shift upwards anymore
                     break;
@@ -215,9 +225,13 @@ where
                         ops.remove(pointer - 1);
                         pointer -= 1;
                     }
+                    #[cfg(similar_verif)]
+                    crate::verif_hooks::cleanup_step("up_slide", pointer, ops);
                 } else if ops[pointer - 1].is_empty() {
                     ops.remove(pointer - 1);
                     pointer -= 1;
+                    #[cfg(similar_verif)]
+                    crate::verif_hooks::cleanup_step("up_drop", pointer, ops);
                 } else {
                     // We can't shift upwards anymore
                     break;
@@ -226,22 +240,32 @@ where
             // Swap the Delete and Insert
             (DiffTag::Insert, DiffTag::Delete) | (DiffTag::Delete, DiffTag::Insert) => {
                 ops.swap(pointer - 1, pointer);
+                #[cfg(similar_verif)]
+                crate::verif_hooks::repair_swapped(ops, pointer - 1);
                 pointer -= 1;
+                #[cfg(similar_verif)]
+                crate::verif_hooks::cleanup_step("up_swap", pointer, ops);
             }
             // Merge the two ranges
             (DiffTag::Insert, DiffTag::Insert) => {
                 ops[pointer - 1].grow_right(this_op.new_range().len());
                 ops.remove(pointer);
                 pointer -= 1;
+                #[cfg(similar_verif)]
+                crate::verif_hooks::cleanup_step("up_merge", pointer, ops);
             }
             (DiffTag::Delete, DiffTag::Delete) => {
                 ops[pointer - 1].grow_right(this_op.old_range().len());
                 ops.remove(pointer);
                 pointer -= 1;
+                #[cfg(similar_verif)]
+                crate::verif_hooks::cleanup_step("up_merge", pointer, ops);
             }
             _ => unreachable!("unexpected tag"),
         }
     }
+    #[cfg(similar_verif)]
+    crate::verif_hooks::cleanup_step("up_exit", pointer, ops);
     pointer
 }
 
@@ -287,8 +311,12 @@ where
                     if ops[pointer + 1].is_empty() {
                         ops.remove(pointer + 1);
                     }
+                    #[cfg(similar_verif)]
+                    crate::verif_hooks::cleanup_step("down_slide", pointer, ops);
                 } else if ops[pointer + 1].is_empty() {
                     ops.remove(pointer + 1);
+                    #[cfg(similar_verif)]
+                    crate::verif_hooks::cleanup_step("down_drop", pointer, ops);
                 } else {
                     // We can't shift upwards anymore
                     break;
@@ -323,8 +351,12 @@ where
                     if ops[pointer + 1].is_empty() {
                         ops.remove(pointer + 1);
                     }
+                    #[cfg(similar_verif)]
+                    crate::verif_hooks::cleanup_step("down_slide", pointer, ops);
                 } else if ops[pointer + 1].is_empty() {
                     ops.remove(pointer + 1);
+                    #[cfg(similar_verif)]
+                    crate::verif_hooks::cleanup_step("down_drop", pointer, ops);
                 } else {
                     // We can't shift downwards anymore
                     break;
@@ -333,19 +365,29 @@ where
             // Swap the Delete and Insert
             (DiffTag::Insert, DiffTag::Delete) | (DiffTag::Delete, DiffTag::Insert) => {
                 ops.swap(pointer, pointer + 1);
+                #[cfg(similar_verif)]
+                crate::verif_hooks::repair_swapped(ops, pointer);
                 pointer += 1;
+                #[cfg(similar_verif)]
+                crate::verif_hooks::cleanup_step("down_swap", pointer, ops);
             }
             // Merge the two ranges
             (DiffTag::Insert, DiffTag::Insert) => {
                 ops[pointer].grow_right(next_op.new_range().len());
                 ops.remove(pointer + 1);
+                #[cfg(similar_verif)]
+                crate::verif_hooks::cleanup_step("down_merge", pointer, ops);
             }
             (DiffTag::Delete, DiffTag::Delete) => {
                 ops[pointer].grow_right(next_op.old_range().len());
                 ops.remove(pointer + 1);
+                #[cfg(similar_verif)]
+                crate::verif_hooks::cleanup_step("down_merge", pointer, ops);
             }
             _ => unreachable!("unexpected tag"),
         }
     }
+    #[cfg(similar_verif)]
+    crate::verif_hooks::cleanup_step("down_exit", pointer, ops);
     pointer
 }
